@@ -141,9 +141,9 @@ fn fixture(i: usize) -> Fixture {
     3 => Fixture {
       name: "npm-and-node",
       install: Box::new(|l| {
-        l.add_text("https://x/root.ts", "import \"npm:x@1\";\nimport \"npm:y@2/sub\";\nimport \"node:fs\";\nimport \"./q.ts\";\nawait import(\"npm:z@3\");\n");
+        l.add_text("https://x/root.ts", "import \"npm:x@1\";\nimport \"npm:b@2/sub\";\nimport \"node:fs\";\nimport \"./q.ts\";\nawait import(\"npm:z@3\");\n");
         l.add_text("https://x/q.ts", "import \"npm:x@1\";\nexport const q = 1;\n");
-        install_common(l, "import \"npm:x@1\";\nimport \"npm:y@2/sub\";\nimport \"npm:z@3\";\nimport \"./q.ts\";\n");
+        install_common(l, "import \"npm:x@1\";\nimport \"npm:b@2/sub\";\nimport \"npm:z@3\";\nimport \"./q.ts\";\n");
         l.add_text("https://x/other.ts", "export const other = 1;\n");
       }),
       roots: vec![url("https://x/root.ts")],
@@ -289,7 +289,11 @@ fn build_fixture_sched(
     }));
   }
   let npm = ScriptedNpmResolver {
-    failing: if npm_mode == 1 { vec!["x".into()] } else { vec![] },
+    failing: match npm_mode {
+      1 => vec!["x".into()],
+      3 => vec!["b".into()],
+      _ => vec![],
+    },
     dep_graph_error: npm_mode == 2,
     log: Default::default(),
   };
@@ -327,7 +331,7 @@ fn body_sched(fixtures: Vec<usize>, mode: SchedMode) -> impl Fn(&Ch) -> Run + Sy
     let mut run = Run::default();
     let fi = fixtures[ch.shape("fixture", fixtures.len())];
     let fx = fixture(fi);
-    let npm_mode = if fx.with_npm { ch.choose("npm_answer", 3) } else { 0 };
+    let npm_mode = if fx.with_npm { ch.choose("npm_answer", 4) } else { 0 };
     let second = ch.flag("second_build_on_the_same_graph");
     // a non-default build option that adds load calls (cache-only probes) to the registry fixtures
     let prefer_cached = matches!(fi, 1 | 2) && ch.choose("prefer_cached_jsr_versions", 2) == 1;
@@ -339,13 +343,33 @@ fn body_sched(fixtures: Vec<usize>, mode: SchedMode) -> impl Fn(&Ch) -> Run + Sy
     let o0 = obs(&g0);
     let o = obs(&g);
     let case = |extra: Value| {
-      json!({"fixture": fx.name, "second_build_with_root_again.ts": second, "prefer_cached_jsr_versions": prefer_cached, "npm_answer": (["ok", "request-error", "dep-graph-error"][npm_mode]),
+      json!({"fixture": fx.name, "second_build_with_root_again.ts": second, "prefer_cached_jsr_versions": prefer_cached, "npm_answer": (["ok", "request-error for package x", "dep-graph-error", "request-error for package b (imported after x, sorted before it)"][npm_mode]),
         "injected": injected.iter().map(|i| json!({"call": i.call_index, "kind": i.kind, "specifier": i.specifier.as_str(), "cache_setting": i.cache_setting, "answer": i.fault})).collect::<Vec<_>>(),
         "loader_calls": log, "detail": extra})
     };
     let first_fault = injected.first().map(|i| i.fault).unwrap_or("none");
     if r0.is_err() {
       run.violate("fault-free-build-did-not-finish", "deadlock without faults", case(json!({})));
+    }
+    // the npm resolver's per-requirement answers land on the requirements they
+    // were given for: a failed requirement is an error entry of *its*
+    // specifiers, every other npm specifier is an npm module
+    if matches!(npm_mode, 1 | 3) {
+      let failing = if npm_mode == 1 { "x" } else { "b" };
+      for (s, entry) in g0.specifiers() {
+        if s.scheme() != "npm" {
+          continue;
+        }
+        let name = s.path().split('@').next().unwrap_or("");
+        let is_err = entry.is_err();
+        if is_err != (name == failing) {
+          run.violate(
+            format!("npm-resolution-answer-on-the-wrong-specifier@{}", if is_err { "error-entry-for-a-resolved-requirement" } else { "module-for-a-failed-requirement" }),
+            format!("the npm resolver fails the requirement on package {failing} only; {s} is {}", if is_err { "an error entry" } else { "a module" }),
+            case(json!({})),
+          );
+        }
+      }
     }
     // (2) the build finishes
     if let Err(e) = &r {
